@@ -22,13 +22,15 @@ package segreader
 //@ end
 
 // C18: a block whose load failed (checksum mismatch, truncated chunk, bad
-// encoding, failed decompression) must never count as the loaded block: the
-// identity of the loaded block (isBlockLoaded, currBlockNum) changes only when
-// a load succeeded, and then it names exactly the block that was loaded.
+// encoding, failed decompression) must never count as the loaded block, and
+// neither may the block that was loaded before it: the loader overwrites the
+// reader's buffers (and the dictionary word slices alias the file buffer), so
+// after a failed load NO block is loaded; after a successful one exactly the
+// requested block is.
 //@ func (*SegmentFileReader).readBlock
 //@   props C18
 //@   requires sfr != nil
-//@   ensures [failed-load-is-not-loaded] implies(!result0 || result1 != nil, sfr.isBlockLoaded == old(sfr.isBlockLoaded) && sfr.currBlockNum == old(sfr.currBlockNum))
+//@   ensures [failed-load-leaves-no-block-loaded] implies(!result0 || result1 != nil, !sfr.isBlockLoaded)
 //@   ensures [loaded-names-the-block] implies(result0 && result1 == nil, sfr.isBlockLoaded && sfr.currBlockNum == blockNum)
 //@ end
 
